@@ -3,14 +3,26 @@ from vf.common import Harness, dump_image
 
 LEVEL = "model_checking"
 TECHNIQUE = "CBMC inductive step on the real scan code: at-rest invariant re-established on every exit (reporting-loop harness with arbitrary verdict bits/errors/callback answers) and 2-safety of a scan against every history-carrying scanner field (real whole scan on a compiled image)"
-ASSUMPTIONS = ["the at-rest invariant (all match lists/bitmaps zero, notebook NULL) is the induction hypothesis; history-carrying fields outside it (entry_point, file_size, last_error_string, iterator) are arbitrary",
+ASSUMPTIONS = ["H3: the MATCH instruction of the regex VM (cut from yr_re_exec, shared with C03): a failing match callback returns every fiber to the pool",
+               "the at-rest invariant (all match lists/bitmaps zero, notebook NULL) is the induction hypothesis; history-carrying fields outside it (entry_point, file_size, last_error_string, iterator) are arbitrary",
                "rule evaluated unconditionally (no_required_strings bit) for tractability; data <= 4 bytes, one block",
                "module data ('unload is called') is checked in C04 (modules unloaded on every VM exit); CLI reuse is C18"]
 LEVEL_TEXT = "One inductive step covers scan histories of any length: every exit re-establishes the invariant, and nothing outside the invariant influences a scan."
 LEVEL_NOTE = "; ".join(ASSUMPTIONS)
 
 
-def harnesses(ctx, tier):
+def _shared_c03(ctx, tier):
+    """the MATCH instruction of the regex VM (C03.H1, cut from yr_re_exec): on a callback error every fiber is back in the pool"""
+    from vf.props import c03
+    for h in c03.harnesses(ctx, tier):
+        if h.name == "H1_step_MATCH":
+            h.name = "H3_regex_fibers_returned_on_callback_error"
+            h.desc = "a failing match callback (match limit reached mid-run) must not leave fibers outside the pool: later scans on the same scanner start from a full pool (shared with C03: " + h.desc + ")"
+            return [h]
+    return []
+
+
+def _own_harnesses(ctx, tier):
     N = 5 if tier == "thorough" else 4
     rule = 'rule r { strings: $a = "ab" condition: #a + filesize + entrypoint == 7 }\n'
 
@@ -27,3 +39,7 @@ def harnesses(ctx, tier):
                 bounds="data <= %d bytes, entry point value arbitrary" % N,
                 functions=["yr_scanner_scan_mem_blocks", "_yr_scanner_scan_mem_block", "yr_execute_code (OP_COUNT, OP_FILESIZE, OP_ENTRYPOINT)"]),
     ]
+
+
+def harnesses(ctx, tier):
+    return _own_harnesses(ctx, tier) + _shared_c03(ctx, tier)
